@@ -109,7 +109,7 @@ pub fn run(rep: &mut Report) {
         .into();
     rep.assumptions = std_assumptions();
     super::run_corpus(rep, replay);
-    let g = tier.pick(500_000, 12_000_000);
+    let g = tier.pick(1_500_000, 12_000_000);
     rep.generated("f64 -> P8E0", g, gen::f64bits, |&b, l| from64::<P8E0>(b, l));
     rep.generated("f64 -> P16E1", g, gen::f64bits, |&b, l| from64::<P16E1>(b, l));
     rep.generated("f64 -> P32E2", g, gen::f64bits, |&b, l| from64::<P32E2>(b, l));
@@ -134,8 +134,8 @@ pub fn run(rep: &mut Report) {
     }
     match tier {
         Tier::Quick => {
-            let off = rep.cfg.seed % 8;
-            rep.lattice("every 8th f32 pattern (offset = seed mod 8) -> three targets (fast oracle)", 1 << 29, move |i, l| from32_fast(i * 8 + off, l));
+            let off = rep.cfg.seed % 2;
+            rep.lattice("every 2nd f32 pattern (offset = seed mod 2) -> three targets (fast oracle)", 1 << 31, move |i, l| from32_fast(i * 2 + off, l));
         }
         Tier::Thorough => {
             rep.exhaustive("all 2^32 f32 patterns -> three targets (fast oracle)", 1 << 32, |i, l| from32_fast(i, l));
